@@ -43,6 +43,13 @@ def classify(component, what, case):
     kind = case.get("kind", "")
     if kind == "sanitizer":
         if "lyb_union_print" in fr:
+            # since the repair of F72 lyb_union_print only READS the shared member value (struct copy into a temporary); when the
+            # writer of the race is the lazy `_canonical` fill of that member by another thread's printer (a lazy site other than
+            # the union's own, publishing through the dictionary) this is the known race F9 seen by one more reader
+            lazy = (fr & LAZY_SITES) - {"lyplg_type_print_union"}
+            if case.get("summary", "").startswith("data race") and lazy and (fr & {"dict_insert", "lydict_insert", "lydict_insert_zc"}) \
+                    and re.search(r"Previous write of size \d+ at \S+ by thread T\d+[^\n]*\n\s+#0 (dict_insert|lydict_insert)", case.get("text", "")):
+                return "F9"
             return "F72"                                   # LYB print of a union re-stores the shared member value
         if "ly_err_new_rec" in fr and ("lyht_resize" in fr or "_lyht_insert_with_resize_cb" in fr) and (fr & ERR_DEREF or "ly_err_get_rec" in fr):
             return "F8"                                    # record array replaced while another thread holds a pointer into it
